@@ -12,10 +12,10 @@ C == Cases[cid]
 Exp == Pipeline(C.srcs, C.cfg)
 \* what a rendering mode can show of a record: id only when field n survived projection
 View(r, mode) == [id |-> IF InSeq("n", r.fields) THEN r.id ELSE 0,
-                  fields |-> IF mode \in {"stream", "jsonlines"} THEN r.fields ELSE <<>>,
+                  fields |-> IF mode \in {"stream", "jsonlines", "wjson"} THEN r.fields ELSE <<>>,
                   src |-> IF mode \in {"stream"} THEN r.src ELSE "-",
                   cls |-> IF mode \in {"stream"} THEN r.cls ELSE "-",
-                  tsd |-> IF mode \in {"stream", "jsonlines"} THEN r.tsd ELSE "-"]
+                  tsd |-> IF mode \in {"stream", "jsonlines", "wjson"} THEN r.tsd ELSE "-"]
 Views(q, mode) == [i \in DOMAIN q |-> View(q[i], mode)]
 \* verdict: the concatenation of the parts is exactly the specified sequence; no part exceeds the limit
 ContractList == C.mode = "list" =>
